@@ -6,7 +6,7 @@ there - the standing proof that the check is not vacuous."""
 PLAN = {
     "C01": dict(
         quick=[("lit_finish_exit", dict(shuffle=8)), ("lit_foreign_finish", dict(cap=1000, shuffle=6)), ("lit_child_other", dict(cap=1000, shuffle=6)), "lit_local_scope",
-               ("lit_spawn_sweep", dict(cap=1000, shuffle=6)), ("par4", dict(shuffle=4)), ("over5_d", dict(cap=600)),
+               ("lit_spawn_sweep", dict(cap=1000, shuffle=6)), ("par4", dict(shuffle=4)), ("over5_d", dict(cap=600)), ("smp_mixed", dict(cap=1500)),
                ("stress:tree4", dict(rounds=200, threads=6)), ("stress:over5_d", dict(rounds=150, threads=4, cfg=dict(K=2))), "burst:9000"],
         thorough=["lit_finish_exit", "lit_foreign_finish", "lit_child_other", "lit_local_scope", "lit_attach_other", "lit_spawn_sweep", "par4", "par5",
                   "over5_d", "tree5", ("sim_par3", dict(cap=6000)), ("stress:tree4", dict(rounds=2000, threads=6)), "burst:9000"],
@@ -60,8 +60,8 @@ PLAN = {
         vacuity=[("over5_d", ["FixForceStart"]), ("over5_d", ["FixFifo"])],
     ),
     "C10": dict(
-        quick=[("scope5", dict(cap=2000)), ("scope_q1", dict(cap=3000)), ("scope_qfull", dict(cap=800)), ("scope_smp", dict(cap=2500)), ("scope_deep", dict(cap=2500))],
-        thorough=["scope5", ("scope6", dict(cap=20000)), "scope_q1", "scope_qfull", "scope_smp", ("scope_smp6", dict(cap=20000, timeout=1200))],
+        quick=[("scope5", dict(cap=2000)), ("scope_q1", dict(cap=3000)), ("scope_qfull", dict(cap=800)), ("scope_smp", dict(cap=2500)), ("scope_deep", dict(cap=2500)), ("lcdrop_open", dict(cap=2500))],
+        thorough=["scope5", ("scope6", dict(cap=20000)), "scope_q1", "scope_qfull", "scope_smp", "lcdrop_open", ("scope_smp6", dict(cap=20000, timeout=1200))],
         vacuity=[("scope5", [], "no-restore")],
     ),
     "C11": dict(
